@@ -820,6 +820,20 @@ get_store_opcode_for_size (int size)
   return NULL;
 }
 
+/* room for one more rewritten instruction? */
+static int
+orc_compiler_insn_table_full (OrcCompiler *compiler)
+{
+  if (compiler->n_insns >= ORC_N_INSNS) {
+    if (!compiler->error) {
+      ORC_COMPILER_ERROR (compiler, "too many instructions after expanding "
+          "loads and stores");
+    }
+    return TRUE;
+  }
+  return FALSE;
+}
+
 static void
 orc_compiler_rewrite_insns (OrcCompiler *compiler)
 {
@@ -851,6 +865,7 @@ orc_compiler_rewrite_insns (OrcCompiler *compiler)
             var->vartype == ORC_VAR_TYPE_DEST) {
           OrcInstruction *cinsn;
 
+          if (orc_compiler_insn_table_full (compiler)) return;
           cinsn = compiler->insns + compiler->n_insns;
           compiler->n_insns++;
 
@@ -888,6 +903,7 @@ orc_compiler_rewrite_insns (OrcCompiler *compiler)
             insn.src_args[i] = loaded;
             continue;
           }
+          if (orc_compiler_insn_table_full (compiler)) return;
           cinsn = compiler->insns + compiler->n_insns;
           compiler->n_insns++;
 
@@ -908,6 +924,7 @@ orc_compiler_rewrite_insns (OrcCompiler *compiler)
       }
     }
 
+    if (orc_compiler_insn_table_full (compiler)) return;
     xinsn = compiler->insns + compiler->n_insns;
     memcpy (xinsn, &insn, sizeof(OrcInstruction));
     compiler->n_insns++;
@@ -922,6 +939,7 @@ orc_compiler_rewrite_insns (OrcCompiler *compiler)
         if (var->vartype == ORC_VAR_TYPE_DEST) {
           OrcInstruction *cinsn;
 
+          if (orc_compiler_insn_table_full (compiler)) return;
           cinsn = compiler->insns + compiler->n_insns;
           compiler->n_insns++;
 
